@@ -62,6 +62,46 @@ check("C05", "exploration",
       SIM + "2-party protocol simulation with seeded peer policy, device-side reassembly oracle",
       "DESIGN.md 4/C05", "manager-world")
 
+check("C06", "exploration",
+      "Pipeline simulation: version-1 certificates are produced by the real gathering tools (adm_ledger "
+      "onboard + attestation as tool processes) from a simulated genuine Ledger with per-run keys, then "
+      "one fault is applied - a device answer altered on the link while gathering, a field altered at "
+      "rest, signatures swapped, an element re-signed or re-parented, targets changed, a wrong / corrupted "
+      "root - or the artefact comes from a dishonest issuer holding its keys (signed trees of depth 1..4, "
+      "missing / wrong tweaks). The real loader and validate_and_get_values are compared target by target "
+      "with an independent reference verifier (pure-Python curve arithmetic, own strict-DER parser, own "
+      "tweak) on the same stored file.",
+      "At its core a function of (certificate, root); the simulator owns only how the artefact comes to be "
+      "(link and file system seams): element graphs that neither the tools, the fault operators nor the "
+      "dishonest-issuer generator produce are not explored.",
+      SIM + "pipeline simulation with link / at-rest faults, independent reference verifier",
+      "DESIGN.md 4/C06", "admin-world")
+
+check("C07", "exploration",
+      "As C06 for version-2 certificates: produced by the real adm_sgx attestation from the quote envelope "
+      "of a simulated enclave with a per-run Intel-like PKI (DER built by the harness); one fault on the "
+      "link / at rest / in the root / dishonest issuer (incl. P-384 keys, broken report-data bindings, "
+      "expired intermediate); and the verifier's virtual clock placed before, exactly at, and after every "
+      "notBefore / notAfter, far past / future, non-overlapping windows. Real validator vs independent "
+      "reference (own DER reader, validity, structure offsets) at the same simulated instant.",
+      "Clock static during one validation; python-ecdsa shared with the code for P-256 arithmetic; for "
+      "corrupted X.509 DER only the accepting direction is decided (library parse strictness differs).",
+      SIM + "pipeline simulation with virtual clock vs X.509 validity, link / at-rest faults, reference verifier",
+      "DESIGN.md 4/C07", "admin-world")
+
+check("C08", "exploration",
+      "The verify_attestation commands are run as tool processes on artefacts gathered by the real tools "
+      "from Byzantine-but-correctly-signing devices (foreign headers, message one byte short / long, other "
+      "keys hash / order, legacy vs current framing, UI message with another BTC key) with operator-side "
+      "file mismatches (key replaced, path renamed, BTC path missing, empty / non-object file, invalid or "
+      "compressed keys, target dropped) and root states (other, broken self-signature, expired under the "
+      "virtual clock). Exit status and every printed value are compared with a reference decision written "
+      "from docs/attestation.md offsets.",
+      "Headers with an arbitrary character in place of the version dot are not generated; clock static "
+      "during one verification.",
+      SIM + "multi-process pipeline simulation with Byzantine signer and operator-file faults, reference decision",
+      "DESIGN.md 4/C08", "admin-world")
+
 check("C09", "fault_enumeration",
       "One bring-up of the real manager process (ManagerRunner.run with the real load_pin over the "
       "simulated file system, real TCPServer.run under the scheduler) per device configuration: platform "
@@ -128,6 +168,18 @@ check("C13", "exploration",
       "as unsigned integers whatever their JSON form.",
       SIM + "2-party simulation with virtual clock and simulated USB re-enumeration, verbatim oracle",
       "DESIGN.md 4/C13", "manager-world")
+
+check("C15", "exploration",
+      "For a simulated genuine device the operator runs the whole tool pipeline as successive processes "
+      "(Ledger: onboard with confirmation and replug, attestation, pubkeys, verify; SGX: attestation, "
+      "pubkeys, verify). Fault-free class: every tool exits 0, written certificates load back to the same "
+      "dictionary, verification prints exactly the device's values. Faulted class: one device answer "
+      "altered at a drawn exchange, one stored field or the root of trust altered - then gathering or "
+      "verification must fail, unless the reference verifiers show that no attested value changed.",
+      "Device models are genuine by construction (BOLOS endorsement scheme two, DCAP-style envelope); "
+      "alterations are single-point.",
+      SIM + "multi-process pipeline simulation with single-point alterations on link, files and root",
+      "DESIGN.md 4/C15", "admin-world")
 
 check("C18", "fault_enumeration",
       "Every combination of platform {Ledger, SGX} x command {onboard, unlock, changepin, pubkeys} x device "
